@@ -1,4 +1,4 @@
-"""Model conformance vectors: pin the modelling decisions M1..M10 (DESIGN.md section 3).
+"""Model conformance vectors: pin the modelling decisions M1..M11 (DESIGN.md section 3).
 
 Plain asserts, run by `vcheck.py --selftest model` and by setup_cmd.  These drive the chip
 model directly over its SPI interface (no library code involved).
@@ -165,6 +165,26 @@ def t_m6_ack_payload():
     _run(sim, 5 * MS)
     assert len(b.tx_fifo) == 0 and b.flags & 0x20
     return 3
+
+
+def t_m11_stale_ack_payload_sent_by_ptx():
+    # a payload armed with W_ACK_PAYLOAD while the chip was a PRX and never used is the head of the TX FIFO when the chip becomes a
+    # PTX: it goes out as an ordinary payload, ahead of what is uploaded afterwards
+    sim, air, a, b = _pair()
+    _setup_link(a, b, ard=3)
+    for x in (a, b):
+        _w(x, 0x1D, 0x07)
+    # A was listening (PRX) and armed an ACK payload for pipe 1 that nobody fetched
+    a.set_ce(False)
+    _w(a, 0x00, 0x0F)
+    a.xfer(b"\xa9STALE")
+    _w(a, 0x00, 0x0E)       # ... then turned transmitter without flushing
+    a.xfer(b"\xa0fresh")
+    a.set_ce(True)
+    _run(sim, 10 * MS)
+    assert [d for (_, d) in b.rx_fifo] == [b"STALE", b"fresh"], b.rx_fifo
+    assert len(a.tx_fifo) == 0
+    return 2
 
 
 def t_m7_ard_rules():
